@@ -405,9 +405,27 @@ impl C09 {
                     let all: [Vec<u8>; 5] = [java.stream(&mut cx.rng), bed.datagram(), LegacyState::gen(&mut cx.rng, LegacyGroup::V1_6).stream(), LegacyState::gen(&mut cx.rng, LegacyGroup::V1_4).stream(), LegacyState::gen(&mut cx.rng, LegacyGroup::VB1_8).stream()];
                     let mut answers: [Option<Vec<u8>>; 5] = Default::default();
                     answers[which as usize] = Some(all[which as usize].clone());
-                    let server = McServerModel::new(answers, [NonAnswer::CloseEmpty; 5], vec![]);
                     let dport = expect_addr.port();
+                    if kind.is_some() && cx.rng.chance(1, 3) {
+                        // a server that answers nothing usable: an entry for one edition still emits that edition's
+                        // request and nothing else
+                        let na = *cx.rng.pick(&[NonAnswer::CloseEmpty, NonAnswer::Garbage, NonAnswer::Silent, NonAnswer::Truncated]);
+                        let server = McServerModel::new(Default::default(), [na; 5], vec![0x05, 0x00, 0x03, b'{', b'}', b'!']);
+                        go!(server, None, |s: &McServerModel, _n: &Net| {
+                            let foreign: Vec<String> = s.requests.iter().filter(|(_, v, _)| *v != which).map(|(_, v, b)| format!("{v:?}:{}", hex(b))).collect();
+                            cx.count("edition-specific-entry-against-a-failing-server");
+                            (!foreign.is_empty() || s.requests.is_empty()).then(|| format!("the {which:?} entry emitted requests of other editions (or none): {foreign:?}"))
+                        });
+                        return;
+                    }
+                    let server = McServerModel::new(answers, [NonAnswer::CloseEmpty; 5], vec![]);
                     go!(server, None, |s: &McServerModel, _n: &Net| {
+                        // an edition-specific entry emits only that edition's requests
+                        if kind.is_some() {
+                            if let Some((_, v, b)) = s.requests.iter().find(|(_, v, _)| *v != which) {
+                                return Some(format!("the {which:?} entry also emitted a {v:?} request {}", hex(b)));
+                            }
+                        }
                         // the last request (the one that was answered) must be that variant's request
                         let (_, v, bytes) = s.requests.last()?.clone();
                         if v != which {
